@@ -194,20 +194,28 @@ func startStallMonitor() {
 }
 
 func (s *Sim) settle() {
-	waitingSince.Store(monitorTicks.Load() + 1)
-	synctest.Wait()
-	waitingSince.Store(0)
-	s.mu.Lock()
-	if len(s.fresh) > 0 {
-		sort.SliceStable(s.fresh, func(i, j int) bool { return s.fresh[i].First < s.fresh[j].First })
-		for _, t := range s.fresh {
-			t.Name = fmt.Sprintf("%s#%d", t.First, s.siteOrd[t.First])
-			s.siteOrd[t.First]++
-			s.named = append(s.named, t)
+	for {
+		waitingSince.Store(monitorTicks.Load() + 1)
+		synctest.Wait()
+		waitingSince.Store(0)
+		s.mu.Lock()
+		if len(s.fresh) > 0 {
+			sort.SliceStable(s.fresh, func(i, j int) bool { return s.fresh[i].First < s.fresh[j].First })
+			for _, t := range s.fresh {
+				t.Name = fmt.Sprintf("%s#%d", t.First, s.siteOrd[t.First])
+				s.siteOrd[t.First]++
+				s.named = append(s.named, t)
+			}
+			s.fresh = nil
 		}
-		s.fresh = nil
+		s.mu.Unlock()
+		// Backlogged connections are handed to the server one per quiescence: net/http starts a goroutine
+		// per accepted connection, and two of them running side by side up to their first yield would be
+		// named in the order the Go scheduler let them arrive (found by the determinism self-test under load).
+		if s.Net == nil || !s.Net.GrantAccept() {
+			return
+		}
 	}
-	s.mu.Unlock()
 }
 
 func (s *Sim) parkedTasks() []*Task {
@@ -405,6 +413,7 @@ func (s *Sim) RunBubble(body func()) (bubbleErr error) {
 		s.schedG = goid()
 		s.start = time.Now()
 		s.Net = simnet.New()
+		s.Net.Gated = true
 		simyield.Hook = s.hook
 		simyield.ListenHook = s.listenAndServe
 		simyield.LockHook = s.lockHook
